@@ -278,6 +278,51 @@ func g01Pipeline(repo string, w *Out) error {
 		!strings.Contains(got, `req.Header.Set("User-Agent", "")`) {
 		return fmt.Errorf("setEmptyUserAgent: body %q is not a shape the model knows", got)
 	}
+	// setBasicAuth: when does the client count as having sent no Authorization, and what is attached
+	sb, err := hp.Func("HTTPProxy.setBasicAuth")
+	if err != nil {
+		return err
+	}
+	srcA := g01Canon(hp.Src(sb.Body), g01Locals(sb.Body))
+	switch {
+	case strings.Contains(srcA, `if _, L1 := req.Header["Authorization"]; !L1 {`):
+		w.DefBool("basic_auth_tests_key_presence", true)
+	case strings.Contains(srcA, `if req.Header.Get("Authorization") == "" {`):
+		w.DefBool("basic_auth_tests_key_presence", false)
+	default:
+		return fmt.Errorf("setBasicAuth: the test for a client supplied Authorization is not a shape the model knows: %q", srcA)
+	}
+	if !strings.Contains(srcA, ":= hp.creds.MatchURL(req.URL);") || !strings.Contains(srcA, "req.SetBasicAuth(") {
+		return fmt.Errorf("setBasicAuth: not `u := hp.creds.MatchURL(req.URL); … req.SetBasicAuth(u.Username(), p)`: %q", srcA)
+	}
+	// command/run configureHeadersModifiers: one request modifier appended to config.RequestModifiers that applies the
+	// connect rules to CONNECT and the request rules to every other request; header.Headers.ModifyRequest applies in order
+	rn, err := Parse(repo, "command/run/run.go")
+	if err != nil {
+		return err
+	}
+	ch, err := rn.Func("command.configureHeadersModifiers")
+	if err != nil {
+		return err
+	}
+	srcH := rn.Src(ch.Body)
+	dispatchOK := strings.Contains(srcH, "if req.Method == http.MethodConnect { return connectHeaders.ModifyRequest(req) } return requestHeaders.ModifyRequest(req)") &&
+		strings.Contains(srcH, "c.httpProxyConfig.RequestModifiers = append(c.httpProxyConfig.RequestModifiers, m)") &&
+		strings.Contains(srcH, "requestHeaders := header.Headers(c.requestHeaders)") && strings.Contains(srcH, "connectHeaders := header.Headers(c.connectHeaders)")
+	w.DefBool("header_rules_dispatch_by_method", dispatchOK)
+	hh, err := Parse(repo, "header/header.go")
+	if err != nil {
+		return err
+	}
+	hm, err := hh.Func("Headers.ModifyRequest")
+	if err != nil {
+		return err
+	}
+	w.DefBool("header_rules_applied_in_order", g01Canon(hh.Src(hm.Body), g01Locals(hm.Body)) == "{ for _, L1 := range s { L1.Apply(req.Header) } return nil }")
+	// config.RequestModifiers are added to the inner group in order
+	if !strings.Contains(hp.Src(ms.Body), "for _, m := range hp.config.RequestModifiers { "+innerVar+".AddRequestModifier(m) }") {
+		return fmt.Errorf("middlewareStack: config.RequestModifiers are not added to the inner group one by one")
+	}
 	// configureProxy: AllowHTTP and where the stack is installed
 	cp, err := hp.Func("HTTPProxy.configureProxy")
 	if err != nil {
